@@ -68,7 +68,9 @@ TRUSTED = [
     "classes x 4 positions, 2 execution classes, 12 GraphQLResult shapes, 17 requests x 2 entry points over the 4 abort sites) and required to match the table's prediction everywhere",
     "error objects are values in the Lean model: sharing/mutation of one exception object between registrations (X6, cached coercion failures) is exercised by the oracle (null sites computed without looking at the errors) and the correspondence, not proved",
     "highlight_location (the text after the message of a syntax error) is opaque in the model: only its totality for positions <= len is exercised",
-    "stage outcomes (error positions, paths, extensions, data) are observed through the real stage functions; scalar serialisers are exercised, not modelled",
+    "stage outcomes (error positions, paths, extensions, data) are observed through the real stage functions; scalar serialisers are exercised, not modelled; "
+    "the hypotheses response_wellformed_pipeline keeps about them (LaterOk: error nodes start at tokens of the submitted text; error classes of the stage "
+    "record) are checked on the real errors of every request submitted as text (corr:stage-hypothesis:*)",
 ]
 
 GRAPHQL = REPO / "src/py_gql/_graphql.py"
@@ -247,6 +249,58 @@ def observe_stages(schema, text, operation_name, variables, executor="blocking",
         return st, "execute", ("internal", "execute", e)
     st["exec"] = {"data": O.enc(r.data), "errors": [abs_err(e) for e in r.errors]}
     return st, None, None
+
+
+def check_stage_hypotheses(ctx, text, stages, failed, detail):
+    """
+    What `Props/C10_stages.lean` still ASSUMES about the stages after parsing (`LaterOk.nodes`) and what it encodes in the
+    TYPES of the composed stage record (`LocatedE`, `IsFieldError`), checked on the real error objects of a request that
+    was submitted as text: validation / variable-coercion errors are plain located errors, the executor's errors are
+    resolver errors carrying a path (a lone path-less one = the root selection could not be collected), and every node
+    with a location starts at a TOKEN of the submitted text (real lexer). Disagreements are about the hypotheses of a
+    theorem, not about the property: kind="correspondence".
+    """
+    from py_gql.lang import Lexer
+    from py_gql.exc import GraphQLSyntaxError
+    if failed == "parse":
+        return
+    try:
+        starts = {t.start for t in Lexer(text)}
+    except GraphQLSyntaxError:
+        ctx.fail("corr:stage-hypothesis:parsed-text-does-not-lex", "the parse stage accepted a text the lexer rejects",
+                 dict(detail), kind="correspondence")
+        return
+    ctx.stat("stage-hypotheses-checked")
+
+    def nodes_ok(stage, e):
+        for n in e.get("nodes") or []:
+            if n is not None and n not in starts:
+                ctx.fail("corr:stage-hypothesis:error-node-not-at-token:" + stage,
+                         "an error of the %s stage carries a node whose position %r is not the start of a token of the text "
+                         "(hypothesis LaterOk.nodes of response_wellformed_pipeline)" % (stage, n), dict(detail, error=e), kind="correspondence")
+                return
+
+    for stage in ("validate", "coerce"):
+        for e in stages.get(stage) or []:
+            if e.get("cls") != "located":
+                ctx.fail("corr:stage-hypothesis:error-class:%s:%s" % (stage, e.get("cls")),
+                         "the %s stage reported an error that is not a plain GraphQLLocatedError (the composed stage record types "
+                         "them as LocatedE)" % stage, dict(detail, error=e), kind="correspondence")
+            else:
+                nodes_ok(stage, e)
+    ex = stages.get("exec")
+    if failed is None and isinstance(ex, dict):
+        errs = ex.get("errors") or []
+        root_failure = ex.get("data") is None and len(errs) == 1 and errs[0].get("path") is None
+        for e in errs:
+            # `located` = the CoercionError of an argument that failed to coerce at execution time (the model's `Out.raised`
+            # with `ext = none`: rendered like a ResolverError without extensions)
+            if e.get("cls") not in ("resolver", "located") or (e.get("path") is None and not root_failure):
+                ctx.fail("corr:stage-hypothesis:error-class:exec:%s" % e.get("cls"),
+                         "the executor registered an error that is not a ResolverError / CoercionError with a response path "
+                         "(executed_errors_are_resolver_errors)", dict(detail, error=e), kind="correspondence")
+            else:
+                nodes_ok("exec", e)
 
 
 # ---------------------------------------------------------------------------
@@ -632,6 +686,8 @@ def check_case(ctx, case, pending):
                 ctx.fail("corr:wellformed:" + (failed or "executed"), "Lean WellFormed and Python well_formed disagree on the real response",
                          dict(detail, lean=ans.get("wf_real"), python=wf_py, real=real), kind="correspondence")
         pending.append(({"op": "process", "stages": stages, "real": real}, on_answer))
+        if form == "str":
+            check_stage_hypotheses(ctx, text, stages, failed, detail)
         if failed is None and world is not None and cfg == "blocking" and form in ("str", "doc"):
             world_s.calls = calls_blocking
             # node position / extensions of the errors of fields that failed WITHOUT their resolver raising (argument
@@ -672,6 +728,9 @@ def check_case(ctx, case, pending):
                 if ans.get("tree_ok") is False:
                     ctx.fail("corr:tree-not-admissible", "hypothesis treeOkFields of executed_response_wellformed does not hold on a recorded tree",
                              dict(detail, tree=tree), kind="correspondence")
+                if ans.get("typed") is False:
+                    ctx.fail("corr:tree-not-typed", "hypothesis typedFields of response_wellformed_pipeline_total does not hold on a tree recorded from a request "
+                             "the real executor answered", dict(detail, tree=tree), kind="correspondence")
                 if ans.get("keys_distinct") is False:
                     ctx.fail("corr:response-keys-not-distinct", "hypothesis RootKeysDistinct of exactly_one_error_per_site does not hold on a recorded tree",
                              dict(detail, tree=tree), kind="correspondence")
